@@ -145,11 +145,18 @@ def check(ctx, prog, facts, is_control=False):
         ctx.finding('UNSAFE', fm, 'extern', 'extern block')
     # C18.3 receivers / &mut params
     state_types = [t.split('<')[0] for t in PUBLIC_TYPES]
+    copy_types = set(i['self_ty'].split('<')[0] for i in facts['impls'] if i['trait'] == 'std::marker::Copy')
     n = 0
     for name, f in prog.fns.items():
         if f['kind'] == 'Closure' or not f.get('reachable'):
             continue
         if f.get('trait_impl') == 'std::ops::Drop':
+            continue
+        if (f.get('trait_impl') or '').startswith('std::ops::') and (f.get('trait_impl') or '').split('<')[0].endswith('Assign') \
+                and (f.get('self_ty') or '').split('<')[0] in copy_types:
+            # a compound-assignment operator (`^=`, `|=`) on a `Copy` value type: every holder has its own copy of such a value, a
+            # `&mut` to one of them reaches no other holder's state (hashes, squares, pieces are plain values, not shared structure)
+            ctx.ob('%s: compound assignment on the Copy value type %s' % (name, f.get('self_ty')), True, nontrivial=False)
             continue
         n += 1
         for i in range(1, f['argc'] + 1):
